@@ -41,7 +41,7 @@ pub fn gen_spec(g: &mut Gen, kinds: &[&str]) -> Value {
 }
 
 pub fn spec_of(v: &Value) -> Spec {
-    Spec { kind: ps(v, "kind").to_string(), n_chains: pus(v, "n_chains"), seed: pu(v, "seed"), pos_seed: pu(v, "pos_seed"), n_collect: pus(v, "n_collect"), n_discard: pus(v, "n_discard"), more_calls: v.get("more_calls").and_then(|m| m.as_array()).map(|a| a.iter().map(|c| (c[0].as_u64().unwrap_or(1) as usize, c[1].as_u64().unwrap_or(0) as usize)).collect()).unwrap_or_default(), prior: v.get("prior").and_then(|m| m.as_array()).map(|c| (c[0].as_u64().unwrap_or(1) as usize, c[1].as_u64().unwrap_or(0) as usize)) }
+    Spec { kind: ps(v, "kind").to_string(), n_chains: pus(v, "n_chains"), seed: pu(v, "seed"), pos_seed: pu(v, "pos_seed"), n_collect: pus(v, "n_collect"), n_discard: pus(v, "n_discard"), more_calls: v.get("more_calls").and_then(|m| m.as_array()).map(|a| a.iter().map(|c| (c[0].as_u64().unwrap_or(1) as usize, c[1].as_u64().unwrap_or(0) as usize)).collect()).unwrap_or_default(), prior: v.get("prior").and_then(|m| m.as_array()).map(|c| (c[0].as_u64().unwrap_or(1) as usize, c[1].as_u64().unwrap_or(0) as usize)), clone_of: false }
 }
 
 pub fn shrink_spec(v: &Value) -> Vec<Value> {
@@ -109,7 +109,9 @@ impl Scenario for ReproSched {
             let calls: Vec<Value> = (0..g.usize(1, 2)).map(|_| if heavy { json!([g.usize(1, 4), g.usize(0, 3)]) } else { json!([g.usize(1, 12), g.usize(0, 8)]) }).collect();
             spec = with(&spec, "more_calls", Value::Array(calls));
         }
-        json!({"spec": spec, "real_rayon": g.bool(1, 8), "sim": gen_sim(g, nc + 1, false)})
+        let real_rayon = g.bool(1, 8);
+        let sim = gen_sim(g, nc + 1, false);
+        json!({"spec": spec, "real_rayon": real_rayon, "sim": sim, "clone_second": g.bool(1, 3)})
     }
     fn execute(&self, params: &Value, want_sample: bool) -> Outcome {
         let mut o = Outcome::default();
@@ -119,8 +121,11 @@ impl Scenario for ReproSched {
         o.count("probe_seed_near_max", (spec.seed > u64::MAX - 64) as u64);
         o.count("probe_multi_call_history", (!spec.more_calls.is_empty()) as u64);
         // (a) sequential single-worker reference, (e) construction repeated
+        // 1 run in 3: the repeated construction is a Clone of the seeded sampler (taken before it has run)
+        let clone_second = params.get("clone_second").and_then(|v| v.as_bool()).unwrap_or(false);
+        o.count("probe_second_construction_is_a_clone", clone_second as u64);
         let r1 = solo(&spec, Mode::Sequential);
-        let r2 = solo(&spec, Mode::Sequential);
+        let r2 = solo(&Spec { clone_of: clone_second, ..spec.clone() }, Mode::Sequential);
         let (a, b) = match (r1, r2) {
             (Err(m), _) | (_, Err(m)) => {
                 o.violate("panic", &panic_key(&spec.kind, &m), format!("{fam} with seed {} panicked: {m}", spec.seed));
